@@ -199,6 +199,11 @@ def conclude(mod, tier, seed, results, t0, replay=None, tmp=None, extra_cov=None
     floors = getattr(mod, "FLOORS", {})
     if callable(floors):
         floors = floors(tier)
+    fb = getattr(mod, "FLOOR_BASE", None)
+    if fb and fb.get(tier):
+        scale = max(1.0, 0.8 * mod.TIERS[tier]["cases"] / float(fb[tier]))
+        fixedk = getattr(mod, "FLOOR_FIXED", set())
+        floors = {k: (v if k in fixedk else int(v * scale)) for k, v in floors.items()}
     unmet = {}
     if not replay:
         for k, need in floors.items():
